@@ -190,6 +190,12 @@ pub fn run_case(case: &Case, out: &mut WorkerOut) {
                     return;
                 }
             }
+            Op::Batch(ts) => {
+                if let Err(p) = h.append_batch(ts) {
+                    report(out, &p, step, case);
+                    return;
+                }
+            }
             Op::Append(t) => {
                 let before = h.model.total_events();
                 let first_id = event_id(t.pk, h.counter + 1);
